@@ -35,7 +35,8 @@ def gen(tier, rng, shard, nshards):
                "seed": S.seed(rng), "start": S.pick(rng, ["generic", "generic", "eigvec", "few-eigvecs", "default", "batched", "batched-mixed"]),
                "max_iters": S.pick(rng, ["1", "2", "n//2", "n-1", "n", "n+5", "default"]), "tol": float(S.pick(rng, [1e-12, 1e-12, 1e-8, 1e-5, 1e-3])),
                "fn": S.pick(rng, ["lanczos", "lanczos", "lanczos", "lanczos_eigs", "Lanczos()"]),
-               "scale": float(S.pick(rng, [1.0, 1.0, 1e6, 1e-6])), "real_start": bool(rng.random() < 0.3), "wide_start": bool(rng.random() < 0.25)}
+               "scale": float(S.pick(rng, [1.0, 1.0, 1e6, 1e-6])), "real_start": bool(rng.random() < 0.3), "wide_start": bool(rng.random() < 0.25),
+               "vscale": float(S.pick(rng, [1.0, 1.0, 1.0, 1e-12, 1e-30, 1e-9, 1e15])), "bwidth": S.pick(rng, ["3", "3", "2", "n"])}
         if rng.random() < 0.12:
             # start vectors whose Krylov space is exhausted *exactly* (residual identically zero, not merely ~1e-16):
             # kernel vector of an integer graph Laplacian, the zero operator, a coordinate eigenvector of a diagonal matrix
@@ -98,7 +99,8 @@ def build(case):
     if st == "default":
         v = None
     elif st == "batched":
-        v = np.stack([vec("generic") for _ in range(3)], axis=1)
+        # (the block may be square: as many start vectors as the operator has rows)
+        v = np.stack([vec("generic") for _ in range({"2": 2, "3": 3, "n": n if 2 <= n <= 12 else 3}[case.get("bwidth", "3")])], axis=1)
     elif st == "batched-mixed":
         v = np.stack([vec("generic"), vec("eigvec"), vec("few-eigvecs")], axis=1)
         d = None
@@ -110,6 +112,11 @@ def build(case):
             v = np.ascontiguousarray(v.real)  # a real start vector for a complex Hermitian operator (narrower dtype than the operator)
         if not cplx and case.get("wide_start") and st in ("generic", "batched"):
             v = (v + 1j * rng.standard_normal(v.shape)).astype(np.complex128)  # a complex start vector for a real symmetric operator
+        vs = float(case.get("vscale", 1.0))
+        if vs != 1.0:
+            # the factorisation depends on the direction of a start vector only, not on its length (mixed lengths inside a batch)
+            fac = vs if v.ndim == 1 else np.array([vs, 1.0, 1.0 / vs if 1e-15 < vs < 1e15 else 1.0, vs, 1.0, vs, 1.0, vs, 1.0, vs, 1.0, vs][:v.shape[1]])[None, :]
+            v = (v * fac).astype(v.dtype)
     mi = {"1": 1, "2": 2, "n//2": max(1, n // 2), "n-1": max(1, n - 1), "n": n, "n+5": n + 5, "default": None}[case["max_iters"]]
     return M, v, lam, d, mi, Q
 
